@@ -2,6 +2,7 @@
   C08 and parsing, part 9: ids keep their meaning as tables grow (`Env.PrefixOf`), the summary of
   a parse used by `Props/C08.lean`, and the capacity witness.
 -/
+import XotModel.Lemmas.ParseQName
 import XotModel.Lemmas.IdMapHtml5
 
 namespace XotModel
@@ -117,7 +118,7 @@ theorem Interner.full_table_wraps (x : Interner) (hx : x.Inv)
 
 /-- The tokens of `<loc/>`. -/
 def emptyElementTokens (loc : Str) : List Token :=
-  [.elementStart ⟨[], 1⟩ ⟨loc, 1⟩ ⟨'<' :: loc, 0⟩, .elementEnd .empty ⟨['/', '>'], 1 + strLen loc⟩]
+  [.elementStart ⟨[], 0⟩ ⟨loc, 1⟩ ⟨'<' :: loc, 0⟩, .elementEnd .empty ⟨['/', '>'], 1 + strLen loc⟩]
 
 theorem buildRegs_emptyElement (env : Env) (h0 : env.prefixes.idxOf ([] : Str) = 0) (loc : Str) :
     buildRegs env (emptyElementTokens loc) = [.pfx [], .name loc Env.noNamespace] := by
@@ -125,7 +126,7 @@ theorem buildRegs_emptyElement (env : Env) (h0 : env.prefixes.idxOf ([] : Str) =
   have hl : lookupPrefix ([] :: (Builder.new env).nsStack) (env.internPrefix []).2 = some Env.noNamespace := by
     rw [hp]; rfl
   simp only [buildRegs, emptyElementTokens, Builder.runRegs, Builder.stepRegs, Builder.step, Builder.element,
-    ElementBuilder.new, List.nil_append]
+    ElementBuilder.new, List.nil_append, StrSpan.bareColon_zero, Bool.false_eq_true, if_false]
   simp only [Builder.openRegs, Builder.new, elementNameRegs, elementNameId, attrsRegs] at hl ⊢
   simp only [hl, List.cons_append, List.nil_append, List.append_nil, List.cons.injEq, true_and]
   split <;> rfl
